@@ -113,7 +113,7 @@ TEXT["C07"] = dict(engine="seqmc", design_ref="DESIGN.md 6 C07",
 
 TEXT["C17"] = dict(engine="enum", design_ref="DESIGN.md 6 C17",
     technique="bounded exhaustive enumeration of strings x separators / patterns / replacements vs naive single-pass references, with per-case termination oracle",
-    level="model checking of the implementation: every string over {a,b,blank} up to the length bound (and over {a,NUL} up to 5) x every separator/pattern/replacement "
+    level="model checking of the implementation: every run of 18..1100 identical characters and every string over {a,b,blank} up to the length bound (and over {a,NUL} up to 5) x every separator/pattern/replacement "
           "of length <= 3 (empty, overlapping and self-containing ones included) and every list of <= 3 elements x 5 infixes is run through "
           "the real split / replace_all / starts_with / join, replace_all also with the string itself as pattern / replacement, join also over 11 element types in "
           "every history of <= 3 calls; the laws of the statement and agreement with naive left-to-right scanners are "
